@@ -53,7 +53,7 @@ def run_job(kind, key):
             r['witness'] = dict(function=c.name)
         return dict(job=key, records=recs)
     if kind == 'lemmas':
-        return dict(job=key, records=rj.ja_lemmas(I, PROP))
+        return dict(job=key, records=rj.ja_lemmas(I, PROP) + pr.tree_view_obligations(I, PROP) + pr.view_lemmas(PROP))
     raise CheckerError(kind)
 
 
@@ -76,7 +76,7 @@ def main(tier='quick', seed=0):
             errors.append(f"{r['error']} (job {r['job']})")
     pr.replay_views(records)
     assumptions = [
-        'deductive part (Japanese half): bank-format printer and reader against the piece-level specification jtoks(t) over the tree view (view checked against tree.py in C07); recursive calls replaced by contracts '
+        'deductive part (Japanese half): bank-format printer and reader against the piece-level specification jtoks(t) over the tree view (view checked against the real tree.py properties in this check as well); recursive calls replaced by contracts '
         '(structural induction; the induction principle is the meta-rule)',
         'ASSUMED abstraction of the reader cursor: next(target) / check / peek / line.find(" ", index) / line[index + 1:end] act on pieces (opening piece, blank, category field, leaf body, closing brace), each use with an '
         'obligation that the pieces at the cursor have the shape the contract abstracts; justified by next-lemma-ja (proved on the real body of next with z3 / cvc5 strings) for fields free of blanks, braces and slashes - '
